@@ -147,6 +147,9 @@ def project(s1, s2, p, delta=0.0):
 
 def box_around_point(p, dist):
     lat, lon = p
+    if dist == float('inf'):
+        # No maximal distance (e.g. a matcher without max_dist): the box is the entire globe
+        return -90.0, -180.0, 90.0, 180.0
     latr, lonr = radians(lat), radians(lon)
     # diag_dist = sqrt(2 * dist ** 2)
     diag_dist = dist
